@@ -58,6 +58,22 @@ theorem buildSymTab_orgRel {D : Nat} {P : Nat → Prop} : ∀ (ss ss' : List Stm
 
 /-! ### resolve -/
 
+/-- a pseudo operand that is a number already (the operand of `ORG $hhhh`) is not rewritten, whatever the
+directive -/
+theorem resolveOperand_pseudo_numeric {o o' : Operand} {row : Gen.InstrRow} {t : SymTab}
+    (h : resolveOperand o row t = .ok o') (hk : o.kind = .pseudo) (hv : o.value.isNumeric = true) : o' = o := by
+  unfold resolveOperand at h
+  rw [hk] at h
+  dsimp only at h
+  split at h
+  · split at h
+    · rename_i hn; rw [hn] at hv; cases hv
+    · have e1 : o.value.isSymbol = false := by cases hx : o.value <;> rw [hx] at hv <;> first | rfl | cases hv
+      have e2 : o.value.isExpression = false := by cases hx : o.value <;> rw [hx] at hv <;> first | rfl | cases hv
+      rw [e1, e2] at h
+      cases h; rfl
+  · cases h; rfl
+
 theorem resolveAll_orgRel {D : Nat} {P : Nat → Prop} {t : SymTab} {ss ss' r r' : List Stmt} (h : PW (OrgRel D P) ss ss')
     (h1 : resolveAll t ss = some r) (h2 : resolveAll t ss' = some r') : PW (OrgRel D P) r r' := by
   have p1 := resolveAll_pw h1
@@ -69,8 +85,8 @@ theorem resolveAll_orgRel {D : Nat} {P : Nat → Prop} {t : SymTab} {ss ss' r r'
   rcases h.2 j s s' hs hs' with ⟨rfl, hm⟩ | ⟨hm, hpd, hin, hk, hk', n, hP, hv, hv'⟩
   · rw [ho] at ho'; cases ho'
     exact .inl ⟨rfl, hm⟩
-  · have e1 := resolveOperand_pseudo ho (.inl hk)
-    have e2 := resolveOperand_pseudo ho' (.inl hk')
+  · have e1 := resolveOperand_pseudo_numeric ho hk (by rw [hv]; rfl)
+    have e2 := resolveOperand_pseudo_numeric ho' hk' (by rw [hv']; rfl)
     subst e1 e2
     exact .inr ⟨hm, hpd, hin, hk, hk', n, hP, hv, hv'⟩
 
